@@ -301,8 +301,9 @@ fn struct_init_block<'a>(input: &'a Struct, ctx: &ImplContext) -> TokenStream {
             let fields: Vec<FieldContainer> = if let Some(p) = x.attrs.parameterized_parent_attr(&ctx.struct_attr.ty).map(|a| a.child_fields.as_ref().unwrap()) {
                 p.iter().map(|p| make_tuple(format!("{}{}", &x.member_str, &p.sub_path_tokens.to_string().replace(' ', "")), FieldData::ParentChildField(x, p)).0).collect()
             } else {
-                let path = x.attrs.child(&ctx.struct_attr.ty).map(|x| x.get_child_path_str(None)).unwrap_or(&x.member_str);
-                vec![make_tuple(path.to_string(), FieldData::Field(x)).0]
+                // '#' keeps the name of a plain member apart from a child path spelled the same (always the case for tuple indexes)
+                let path = x.attrs.child(&ctx.struct_attr.ty).map(|x| x.get_child_path_str(None).to_string()).unwrap_or_else(|| format!("#{}", x.member_str));
+                vec![make_tuple(path, FieldData::Field(x)).0]
             };
             fields.into_iter()
         }));
